@@ -3,12 +3,14 @@ package checks
 import (
 	"bytes"
 	"context"
+	"crypto/tls"
 	"errors"
 	"fmt"
 	"runtime"
 	"strings"
 	"sync"
 	"sync/atomic"
+	"verifharness/tr"
 
 	wire "github.com/jeroenrinzema/psql-wire"
 	"github.com/jeroenrinzema/psql-wire/pkg/buffer"
@@ -239,6 +241,53 @@ func (ch c01) Run(c *core.Ctx) {
 		conn.CloseWrite()
 		conn.WaitClosed()
 		<-e2.ServeErr
+	}
+	// a TLS client that presents a self-signed certificate naming the user it claims to be, to a server
+	// that merely requests client certificates: nothing verifiable has been shown, the password strategy
+	// decides as ever
+	for k := 0; k < 2 && c.Begin(4100000+k); k++ {
+		scfg := hs.ServerTLS()
+		scfg.ClientAuth = []tls.ClientAuthType{tls.RequestClientCert, tls.RequireAnyClientCert}[k]
+		e3 := hs.Start(hs.Parse, wire.TLSConfig(scfg), wire.SessionAuthStrategy(wire.ClearTextPassword(c01validator)), wire.SessionMiddleware(c01session))
+		conn := e3.Dial(&hs.Sess{Default: func(string) *hs.Prog { return probe }})
+		conn.Send(pg.SSLRequest())
+		conn.Quiesce()
+		if string(conn.Out()) == "S" {
+			cc := &tr.ClientConn{C: conn, Pos: 1}
+			ccfg := hs.ClientTLS()
+			ccfg.Certificates = []tls.Certificate{hs.ClientCert("certuser")}
+			tc := tls.Client(cc, ccfg)
+			if err := tc.Handshake(); err == nil {
+				tc.Write(append(pg.Startup([][2]string{{"user", "certuser"}}), pg.Query("select 'pipelined behind the start-up'")...))
+				conn.Quiesce()
+				cc.NonBlock = true
+				var dec []byte
+				buf := make([]byte, 1<<14)
+				for {
+					n, err := tc.Read(buf)
+					dec = append(dec, buf[:n]...)
+					if err != nil {
+						break
+					}
+				}
+				kinds := replyKinds(dec)
+				served := ""
+				for _, e := range conn.Events() {
+					if e.Kind == "cb" {
+						served += e.Name + " "
+					}
+				}
+				if strings.Contains(kinds, "R(0)") || strings.Contains(kinds, "Z") || served != "" {
+					c.Violate("session-without-acceptance", "a connection whose credentials were never accepted reached the authenticated phase (unverifiable client certificate naming the user)", fmt.Sprintf("client-auth mode %d: reply %s, callbacks: %s", scfg.ClientAuth, kinds, served), nil)
+				}
+				c.Count("unverifiable_client_certificates", 1)
+				c.Eval(fmt.Sprintf("unverifiable client certificate %d", k), true)
+				tc.Close()
+			}
+		}
+		conn.CloseWrite()
+		conn.WaitClosed()
+		e3.Stop()
 	}
 	// several connections authenticate at the same time (accepting and rejecting credentials mixed,
 	// the validator yields before it decides): every connection is judged exactly as when alone
